@@ -1,12 +1,50 @@
 """C02 - no premature acceptance (DESIGN 5/C02).  The timer is an ordinary event, tried at every point."""
 from . import pcommon
+from .. import common
 NEED = ('accept-D', 'accept-R', 'accept-forced-by-timeout', 'timeout-while-owed', 'password-bang', 'reply-OKE', 'reply-NO', 'soft-done')
 
 def plan(tier):
     # incl. reloads of the service table while the client waits; a refusal from a service the reload dropped still counts
     return [pcommon.reload_search(tier, 'refuse')] + pcommon.plan_solo(tier) + [pcommon.reload_search(tier)]
 
+def real_timeout(run):
+    """"...unless that client's configured request timeout has expired": with the unmodified daemon, a 2 s timeout and a query that is never answered, a client
+    announced at different phases of the wall-clock second must not be accepted before 2 s have really passed (a one-sided measurement: a busy machine
+    only makes the verdict later)."""
+    import time
+    from .. import build, e3
+    b = build.build()
+    services = pcommon.G['drone']
+    conf = e3.plain_conf(b, services=services, timeout=2, rules=pcommon.rules_for(services))
+    d = e3.Daemon(conf, b=b)
+    early = []
+    n = 0
+    try:
+        if not d.wait_banner():
+            raise common.HarnessError('E3 daemon did not start')
+        for k, phase in enumerate((0.05, 0.35, 0.65, 0.92)):
+            cid = 21 + k
+            while abs((time.time() % 1.0) - phase) > 0.02:
+                time.sleep(0.005)
+            t0 = time.time()
+            d.write(('%d C 10.0.2.%d 40%d 10.9.9.9 6667\n%d N h%d.example.net\n%d u id%d\n%d n nick%d\n%d U user%d :Real Name\n' % ((cid,) * 11)).encode())
+            key = ('D %d ' % cid).encode()
+            d.wait_for(lambda o: (b'\n' + key) in (b'\n' + o), 8)
+            t1 = time.time()
+            n += 1
+            if any(l.startswith('D %d ' % cid) for l in d.lines()) and t1 - t0 < 1.9:
+                early.append((cid, round(t1 - t0, 2), phase))
+        rc, out, err = d.close(10)
+    except Exception:
+        d.close(5)
+        raise
+    if early:
+        run.violation('C02.query-unanswered', '[E3 real timer] timeout 2 s, the dronecheck query never answered: accepted after %s (client id, seconds, phase of the second at which it was announced)' % early,
+                      {'engine': 'E3', 'conf': conf, 'early': early}, dedup='realtimeout')
+    return {'real_timeout_clients': n}
+
+
 def main(tier):
-    return pcommon.run_plan('C02', tier, plan(tier), ('C02.',), NEED)
+    return pcommon.run_plan('C02', tier, plan(tier), ('C02.',), NEED, extra_cov=real_timeout)
 
 replay = pcommon.replay
